@@ -5,6 +5,15 @@ HERE = os.path.dirname(os.path.abspath(__file__))
 BASELINE = "cd /repo && /venv/bin/python -m pytest -ra -q -p no:cacheprovider --timeout=900 --continue-on-collection-errors"
 
 CLAIMED = {
+    'C13': dict(
+        design='4.13',
+        text='Deductive proof of the specification-handling kernel: function._argument_to_array item lemma for every spelling (dict, pairs, string, sequence of strings) x key kind '
+             '(name, Argument, other) x value kind (name, Argument, array): yields exactly the array\'s own argument paired with the replacement, ValueError exactly for a bad key or a '
+             'shape/dtype mismatch, nothing else escapes; _Replace.__init__ announces (arguments minus replaced names) joined with the replacements\' arguments for every spelling; '
+             '_join_arguments / arguments_for are unions that raise on a clash. Names, shapes and dtypes symbolic.',
+        note='BOUNDED in sizes (labelled in the evidence, not counted as unbounded proof): the array has two arguments, one item per call (iterations are independent: meta-argument). '
+             'Trusted: str.split external, association-list reading of dicts with symbolic keys, eager generators. Outside: that replace/linearize/factor EVALUATE to what the definition says (semantic).',
+        technique='contract-based deductive verification: ast->z3 VC generation on the real function bodies, sidecar contracts'),
     'C12': dict(
         design='4.12',
         text='Deductive proof of util.merge_index_map (the union-find behind multipatch/merged bases): for every nin, every number and length of merge sets, with four loop '
@@ -64,7 +73,7 @@ NOT_APPLICABLE = {
     'C02': 'whole-DAG faithful translation into generated numpy programs: no function-level postcondition carries it; would need a denotational semantics of ~150 node classes and of the generated code (DESIGN 4.2)',
     'C03': 'history/non-interference property of a program that exists only as a generated string; no per-function contract expresses it (DESIGN 4.3)',
 }
-PENDING = ['C04', 'C05', 'C07', 'C08', 'C10', 'C11', 'C13', 'C16', 'C17', 'C18', 'C19', 'C20']
+PENDING = ['C04', 'C05', 'C07', 'C08', 'C10', 'C11', 'C16', 'C17', 'C18', 'C19', 'C20']
 
 
 def main():
